@@ -71,6 +71,8 @@ func (p *packageParse) unpack(data []byte) (msgs []*Message, err error) {
 			return count == 2
 		})
 		if index == len(data)-1 {
+			// 拷贝一份 调用方会复用data这个缓冲区 否则消息内容会被后续读取覆盖
+			data = bytes.Clone(data)
 			jtMsg := jt808.NewJTMessage()
 			if err := jtMsg.Decode(data); err != nil {
 				return nil, fmt.Errorf("%w [%x]", err, data)
@@ -93,7 +95,8 @@ func (p *packageParse) unpack(data []byte) (msgs []*Message, err error) {
 		if end == -1 {
 			break
 		}
-		originalData := p.historyData[:end]
+		// 拷贝一份 historyData的底层数组会被后续数据覆盖
+		originalData := bytes.Clone(p.historyData[:end])
 		jtMsg := jt808.NewJTMessage()
 		if err := jtMsg.Decode(originalData); err != nil {
 			p.historyData = p.historyData[end:]
